@@ -1,10 +1,10 @@
 From Coq Require Extraction.
 From Coq Require Import ExtrOcamlBasic.
-From NV Require Import Base.Witness Io.Source Async.ReadExact Util.Detect Util.Fill Util.AsyncFill Util.Dispatch Util.Convert.
+From NV Require Import Base.Witness Io.Source Async.ReadExact Util.Detect Util.Fill Util.AsyncFill Util.Dispatch Util.Convert Util.ConvertFile.
 Extraction "model.ml" nv_types_witness build_a build_v detect_compression mk_inflated
   mkSource first_window build_src_a build_src_v
   mkASource polls_of async_window_case build_async_a build_async_v
   build_writer_a build_writer_v build_writer_path_a build_writer_path_v
   build_reader_kind_a build_reader_kind_v indexed_build_a indexed_build_v index_path
   finish_a finish_v vw_run vw_drop
-  convert_sam_bam convert_bam_sam.
+  convert_sam_bam convert_bam_sam convert_sam_bam_file.
